@@ -182,8 +182,13 @@ Proof.
   { rewrite <- !NilEmpty.usu. rewrite H. reflexivity. }
   inversion E as [E']. rewrite <- (DecimalN.Unsigned.of_to a), <- (DecimalN.Unsigned.of_to b), E'. reflexivity.
 Qed.
+(* for an ARBITRARY prefix: the spelling of the prefix is a regenerated table entry, distinctness does not depend on it *)
+Lemma append_inj_l p a b : String.append p a = String.append p b -> a = b.
+Proof. induction p as [|c p IH]; simpl; intros H; [assumption|]. inversion H. apply IH. assumption. Qed.
+Lemma auto_name_of_inj p a b : auto_name_of p a = auto_name_of p b -> a = b.
+Proof. unfold auto_name_of. intros H. apply append_inj_l in H. apply string_of_N_inj. assumption. Qed.
 Lemma auto_name_inj a b : auto_name a = auto_name b -> a = b.
-Proof. unfold auto_name. simpl. intros H. inversion H. apply string_of_N_inj. assumption. Qed.
+Proof. unfold auto_name. apply auto_name_of_inj. Qed.
 
 (* k, k+1, ..., k+n-1 *)
 Fixpoint nseq (k : N) (n : nat) : list N := match n with O => [] | S n' => k :: nseq (N.succ k) n' end.
